@@ -984,6 +984,8 @@ package mcp
 //@ func stdioClientTransport.close
 //@   ensures[C08 close-marks-the-transport-closed] t.closed
 //@   ensures[C08 close-cancels-the-transport-context] !old(t.closed) ==> cancels == old(cancels) + 1
+//@   loop 1 invariant[C08] (forall k int64 :: visited(1, k) ==> !(k in t.pendingRequests)) && (forall k int64 :: (k in t.pendingRequests) ==> ranged(1, k))
+//@   ensures[C08 close-leaves-no-pending-entry] !old(t.closed) ==> (forall k int64 :: !(k in t.pendingRequests))
 //@
 //@ sweepscope[C08] kinds=cancel files=streamable_client.go,sse_client.go,transport_stdio.go,client.go,stdio_client.go
 
@@ -1214,3 +1216,11 @@ package mcp
 //@   before call send#1 assert[C05 queued-on-the-session-registered-under-the-addressed-id] lastloadkey == asany(sessionID) && asany(session) == lastloadval
 //@ func SSEServer.SendRequest
 //@   before call send#1 assert[C05 queued-on-the-session-registered-under-the-addressed-id] lastloadkey == asany(sessionID) && asany(session) == lastloadval
+//@
+// C10 — NotificationParams on the wire: the object handed to encoding/json has exactly the
+// additional fields (values unchanged) plus "_meta" (the Meta map when it is not empty).
+//@ func NotificationParams.MarshalJSON
+//@   loop 1 invariant[C10 wire-object-holds-only-given-fields-and-all-visited-ones] (forall k string :: (k in m) && k != "_meta" ==> (k in p.AdditionalFields) && m[k] == p.AdditionalFields[k]) && (forall k string :: visited(1, k) && k != "_meta" ==> (k in m) && m[k] == p.AdditionalFields[k]) && (len(p.Meta) > 0 ==> ("_meta" in m) && m["_meta"] == asany(p.Meta))
+//@   before call Marshal#1 assert[C10 every-additional-field-is-on-the-wire-unchanged] forall k string :: (k in p.AdditionalFields) && k != "_meta" ==> (k in arg0.(map[string]interface{})) && arg0.(map[string]interface{})[k] == p.AdditionalFields[k]
+//@   before call Marshal#1 assert[C10 nothing-else-is-on-the-wire] forall k string :: (k in arg0.(map[string]interface{})) && k != "_meta" ==> (k in p.AdditionalFields)
+//@   before call Marshal#1 assert[C10 meta-is-on-the-wire-when-present] len(p.Meta) > 0 ==> ("_meta" in arg0.(map[string]interface{})) && arg0.(map[string]interface{})["_meta"] == asany(p.Meta)
